@@ -14,13 +14,17 @@ def _canon_td(x):
     every leaf (key, shape, dtype, values); lazy stacks member by member"""
     from tensordict import LazyStackedTensorDict, TensorDictBase, is_tensorclass
     if isinstance(x, LazyStackedTensorDict):
-        return ["lazy", x.stack_dim, list(x.batch_size), _names(x), bool(x.is_locked), [_canon_td(t) for t in x.tensordicts]]
+        return ["lazy", x.stack_dim, list(x.batch_size), _names(x), bool(x.is_locked), str(x.device), [_canon_td(t) for t in x.tensordicts]]
     if is_tensorclass(x):
         return ["tc", type(x).__name__, _canon_td(x._tensordict)]
     if isinstance(x, TensorDictBase):
         items = sorted(((k if isinstance(k, str) else ".".join(k)), v) for k, v in x.items(True, True))
-        nodes = sorted((k if isinstance(k, str) else ".".join(k)) for k in x.keys(True, False) if k not in x.keys(True, True))
-        return ["td", type(x).__name__, list(x.batch_size), _names(x), bool(x.is_locked), nodes,
+        leafkeys = set(x.keys(True, True))
+        # inner nodes with their own class / batch size / names / lock state / device
+        nodes = sorted([(k if isinstance(k, str) else ".".join(k)), type(x.get(k)).__name__, list(x.get(k).batch_size), _names(x.get(k)),
+                        bool(x.get(k).is_locked), str(x.get(k).device)]
+                       for k in x.keys(True, False) if k not in leafkeys and isinstance(x.get(k), TensorDictBase))
+        return ["td", type(x).__name__, list(x.batch_size), _names(x), bool(x.is_locked), str(x.device), nodes,
                 [[k, list(v.shape), str(v.dtype), _vals(v)] + ([type(v).__name__, bool(v.requires_grad)] if (v.requires_grad or type(v) is not torch.Tensor) else [])
                  if isinstance(v, torch.Tensor) else [k, "py", repr(v)] for k, v in items]]
     if isinstance(x, torch.Tensor):
@@ -334,6 +338,8 @@ CORPUS = [
     ((2, 3), "tdp", ["gather0"]), ((2, 3), "tdp", ["mul2", "idx0"]),
     # consolidate on strided / offset leaves (compile branch of the contiguity test)
     ((2, 3), "td", ["transpose01", "idx_tail", "consolidate"]),
+    # boolean-mask index under compile (torch.Size of a fake tensor in _getitem_batch_size, repaired in round 2)
+    ((2, 3), "td", ["idx_bool_mask", "mul2"]),
     # batch size spelled as a bare int 0 (seeded C18-2)
     ((3,), "td", ["construct_int0"]),
     # nested key whose sub-tuple unravels to one multi-character name (seeded C18-3)
